@@ -268,7 +268,7 @@ class ProvRecord(object):
 
     def get_asserted_types(self):
         """Returns the set of all asserted PROV types of this record."""
-        return self._attributes[PROV_TYPE]
+        return self._values_of(PROV_TYPE)
 
     def add_asserted_type(self, type_identifier):
         """
@@ -287,7 +287,12 @@ class ProvRecord(object):
         :rtype: set
         """
         attr_name = self._bundle.valid_qualified_name(attr_name)
-        return self._attributes[attr_name]
+        return self._values_of(attr_name)
+
+    def _values_of(self, attr_name):
+        # reading must not leave an (empty) entry behind in the defaultdict: its
+        # position would decide where a value added later is serialized
+        return self._attributes.get(attr_name) or set()
 
     @property
     def identifier(self):
@@ -315,7 +320,7 @@ class ProvRecord(object):
         :return: Tuple
         """
         return tuple(
-            first(self._attributes[attr_name]) for attr_name in self.FORMAL_ATTRIBUTES
+            first(self._values_of(attr_name)) for attr_name in self.FORMAL_ATTRIBUTES
         )
 
     @property
@@ -326,7 +331,7 @@ class ProvRecord(object):
         :return: Tuple of tuples (name, value)
         """
         return tuple(
-            (attr_name, first(self._attributes[attr_name]))
+            (attr_name, first(self._values_of(attr_name)))
             for attr_name in self.FORMAL_ATTRIBUTES
         )
 
@@ -357,15 +362,15 @@ class ProvRecord(object):
     def label(self):
         """Identifying label of the record."""
         return (
-            first(self._attributes[PROV_LABEL])
-            if self._attributes[PROV_LABEL]
+            first(self._values_of(PROV_LABEL))
+            if self._values_of(PROV_LABEL)
             else self._identifier
         )
 
     @property
     def value(self):
         """Value of the record."""
-        return self._attributes[PROV_VALUE]
+        return self._values_of(PROV_VALUE)
 
     # Handling attributes
     def _auto_literal_conversion(self, literal):
@@ -745,7 +750,7 @@ class ProvActivity(ProvElement):
 
         :return: :py:class:`datetime.datetime`
         """
-        values = self._attributes[PROV_ATTR_STARTTIME]
+        values = self._values_of(PROV_ATTR_STARTTIME)
         return first(values) if values else None
 
     def get_endTime(self):
@@ -754,7 +759,7 @@ class ProvActivity(ProvElement):
 
         :return: :py:class:`datetime.datetime`
         """
-        values = self._attributes[PROV_ATTR_ENDTIME]
+        values = self._values_of(PROV_ATTR_ENDTIME)
         return first(values) if values else None
 
     # Convenient assertions that take the current ProvActivity as the first
